@@ -162,9 +162,30 @@ func ruleTAB1(w *World) []Ob {
 	for _, p := range []*Prog{w.D()} {
 		l.cfg = p.Cfg.Name
 		nc := newNilCtx(p)
-		fn := p.Func("(*gtree.nodeGenerator).handleErr")
+		// the mapper, by role: the library function that compares an error parameter with the parser's sentinels
+		var fn *ssa.Function
+		for _, f := range libFuncs(p) {
+			if p.PkgPath(f) != modulePath {
+				continue
+			}
+			cmp := 0
+			allInstrs(f, func(in ssa.Instruction) {
+				b, ok := in.(*ssa.BinOp)
+				if !ok || (b.Op != token.EQL && b.Op != token.NEQ) {
+					return
+				}
+				for _, pr := range [][2]ssa.Value{{b.X, b.Y}, {b.Y, b.X}} {
+					if _, isP := resolve(pr[0]).(*ssa.Parameter); isP && isErrorType(pr[0].Type()) && strings.HasPrefix(globalName(pr[1]), "Err") {
+						cmp++
+					}
+				}
+			})
+			if cmp >= 2 && (fn == nil || p.FuncID(f) < p.FuncID(fn)) {
+				fn = f
+			}
+		}
 		if fn == nil {
-			l.undecided("(*gtree.nodeGenerator).handleErr", "error mapping", "-", "function not found", "map")
+			l.undecided("gtree (parser error mapper)", "error mapping", "-", "no function that compares an error parameter with the markdown sentinels was found", "map")
 			continue
 		}
 		paths, ok := enumPaths(fn)
@@ -258,10 +279,10 @@ func ruleTAB1(w *World) []Ob {
 			var parse, he *ssa.Call
 			allInstrs(gen, func(in ssa.Instruction) {
 				if c, ok := in.(*ssa.Call); ok && c.Common().StaticCallee() != nil {
-					switch c.Common().StaticCallee().Name() {
-					case "Parse":
+					if c.Common().StaticCallee().Name() == "Parse" {
 						parse = c
-					case "handleErr":
+					}
+					if c.Common().StaticCallee() == fn {
 						he = c
 					}
 				}
@@ -282,7 +303,7 @@ func ruleTAB1(w *World) []Ob {
 			switch {
 			case parse == nil || he == nil:
 				l.bad(p.FuncID(gen), "row and error handed to handleErr", p.Pos(gen.Pos()), "generate does not call Parse and handleErr", "map")
-			case !sameVar(parse.Common().Args[1], he.Common().Args[2]) || resolve(he.Common().Args[1]) != ssa.Value(siblingExtract(parse, 1)):
+			case !mapperGetsParseResult(parse, he):
 				l.bad(p.FuncID(gen), "row and error handed to handleErr", p.InstrPos(he), "handleErr does not receive Parse's error together with the row that was parsed", "map")
 			default:
 				l.ok(p.FuncID(gen), "row and error handed to handleErr", p.InstrPos(he), "handleErr(err of Parse(row), row)", true, "map")
@@ -545,20 +566,11 @@ func ruleTAB3(w *World) []Ob {
 	var problems []string
 	nTrue, nFalse := 0, 0
 	var hasChildGuard, suffixGuard bool
-	allInstrs(fn, func(in ssa.Instruction) {
-		r, ok := in.(*ssa.Return)
-		if !ok {
-			return
-		}
-		b, isC := constBool(rr(r)[0])
-		if !isC {
-			problems = append(problems, "non-constant result at "+p.InstrPos(r))
-			return
-		}
+	label := func(guards []Guard) []string {
 		var gs []string
-		for _, g := range guardsOf(r.Block()) {
+		for _, g := range guards {
 			c, pol := flattenCond(g.Cond, g.Pol)
-			if isRangeLoopCond(c) {
+			if isRangeLoopCond(c) || isIndexLoopCond(c) {
 				continue
 			}
 			call, ok := c.(*ssa.Call)
@@ -591,6 +603,9 @@ func ruleTAB3(w *World) []Ob {
 				gs = append(gs, "other:"+calleeString(call.Common()))
 			}
 		}
+		return gs
+	}
+	judge := func(b bool, gs []string) {
 		sort.Strings(gs)
 		key := strings.Join(gs, ",")
 		if b {
@@ -605,12 +620,61 @@ func ruleTAB3(w *World) []Ob {
 			switch key {
 			case "hasChild=true":
 				hasChildGuard = true
-			case "hasChild=false":
+			case "hasChild=false", "hasChild=false,suffix=false":
 			default:
 				if strings.Contains(key, "other:") || strings.Contains(key, "suffix=true") {
 					problems = append(problems, "`return false` under ["+key+"]")
 				}
 			}
+		}
+	}
+	// a result is a constant, a boolean phi (&&, ||) of results, !hasChild(node), or ∃-over-extensions in library form
+	var value func(v ssa.Value, guards []Guard, neg bool, pos string, d int)
+	value = func(v ssa.Value, guards []Guard, neg bool, pos string, d int) {
+		if b, isC := constBool(v); isC {
+			judge(b != neg, label(guards))
+			return
+		}
+		if d > 4 {
+			problems = append(problems, "non-constant result at "+pos)
+			return
+		}
+		switch x := v.(type) {
+		case *ssa.Phi:
+			for i, e := range x.Edges {
+				pred := x.Block().Preds[i]
+				gs := append([]Guard{}, guardsOf(pred)...)
+				if iff, ok := pred.Instrs[len(pred.Instrs)-1].(*ssa.If); ok && pred.Succs[0] != pred.Succs[1] {
+					gs = append(gs, Guard{If: iff, Cond: iff.Cond, Pol: pred.Succs[0] == x.Block(), Succ: x.Block()})
+				}
+				value(e, gs, neg, pos, d+1)
+			}
+			return
+		case *ssa.UnOp:
+			if x.Op == token.NOT {
+				value(x.X, guards, !neg, pos, d+1)
+				return
+			}
+		case *ssa.Call:
+			if x.Common().StaticCallee() != nil && x.Common().StaticCallee().Name() == "hasChild" && sameVar(x.Common().Args[0], node) {
+				// the value hasChild(node): true under hasChild=true, false under hasChild=false
+				gl := label(guards)
+				judge(!neg, append(append([]string{}, gl...), "hasChild=true"))
+				judge(neg, append(append([]string{}, gl...), "hasChild=false"))
+				return
+			}
+			if existsSuffixOverExtensions(x, node) {
+				gl := label(guards)
+				judge(!neg, append(append([]string{}, gl...), "suffix=true"))
+				judge(neg, append(append([]string{}, gl...), "suffix=false"))
+				return
+			}
+		}
+		problems = append(problems, "non-constant result at "+pos)
+	}
+	allInstrs(fn, func(in ssa.Instruction) {
+		if r, ok := in.(*ssa.Return); ok {
+			value(rr(r)[0], guardsOf(r.Block()), false, p.InstrPos(r), 0)
 		}
 	})
 	if !hasChildGuard {
@@ -847,10 +911,17 @@ func ruleTAB4(w *World) []Ob {
 	}
 	// the walk follows a root that is a symbolic link: fs.WalkDir over os.DirFS opens the root, whereas
 	// filepath.WalkDir / filepath.Walk lstat it and do not descend
-	if vr := p.Func("(*gtree.defaultVerifierSimple).verifyRoot"); vr != nil {
+	verifyFam := func(vr *ssa.Function) []*ssa.Function {
+		// verifyRoot, the helpers it is split into and their closures
 		var fam []*ssa.Function
-		fam = append(fam, vr)
-		fam = append(fam, vr.AnonFuncs...)
+		for f := range reachableFrom(p, []*ssa.Function{vr}, func(f *ssa.Function) bool { return recvTypeName(f) == "Node" }) {
+			fam = append(fam, f)
+		}
+		sort.Slice(fam, func(i, j int) bool { return p.FuncID(fam[i]) < p.FuncID(fam[j]) })
+		return fam
+	}
+	if vr := p.Func("(*gtree.defaultVerifierSimple).verifyRoot"); vr != nil {
+		fam := verifyFam(vr)
 		walk := ""
 		for _, f := range fam {
 			allInstrs(f, func(in ssa.Instruction) {
@@ -873,7 +944,26 @@ func ruleTAB4(w *World) []Ob {
 	}
 	// the directory walk visits everything: its callback never prunes (fs.SkipDir / fs.SkipAll)
 	if vr := p.Func("(*gtree.defaultVerifierSimple).verifyRoot"); vr != nil {
-		for _, cb := range vr.AnonFuncs {
+		var cbs []*ssa.Function
+		for _, f := range verifyFam(vr) {
+			allInstrs(f, func(in ssa.Instruction) {
+				if c, ok := in.(*ssa.Call); ok && len(c.Common().Args) == 3 {
+					switch calleeFullName(c.Common()) {
+					case "io/fs.WalkDir", "path/filepath.WalkDir", "path/filepath.Walk":
+						switch cb := resolve(c.Common().Args[2]).(type) {
+						case *ssa.MakeClosure:
+							cbs = append(cbs, cb.Fn.(*ssa.Function))
+						case *ssa.Function:
+							cbs = append(cbs, cb)
+						}
+					}
+				}
+			})
+		}
+		if len(cbs) == 0 {
+			l.undecided(p.FuncID(vr), "walk callback never prunes", p.Pos(vr.Pos()), "the callback of the directory walk could not be identified", "sets")
+		}
+		for _, cb := range cbs {
 			bad := ""
 			allInstrs(cb, func(in ssa.Instruction) {
 				r, ok := in.(*ssa.Return)
@@ -895,9 +985,7 @@ func ruleTAB4(w *World) []Ob {
 	if vr := p.Func("(*gtree.defaultVerifierSimple).verifyRoot"); vr != nil {
 		okAll := true
 		var why []string
-		var fam []*ssa.Function
-		fam = append(fam, vr)
-		fam = append(fam, vr.AnonFuncs...)
+		fam := verifyFam(vr)
 		lookupsNeg := 0
 		for _, f := range fam {
 			allInstrs(f, func(in ssa.Instruction) {
@@ -1361,25 +1449,22 @@ func ruleTAB7(w *World) []Ob {
 			construct := num.name("cli.Exit code")
 			if !isC {
 				// the code is a parameter / receiver of a small helper: every caller passes a non-zero constant
-				v := c.Common().Args[1]
-				if cv, ok := v.(*ssa.Convert); ok {
-					v = cv.X
-				}
-				if prm, ok := v.(*ssa.Parameter); ok {
+				v := stripConv(c.Common().Args[1])
+				if prm, ok := v.(*ssa.Parameter); ok && len(p.Callers(fn)) > 0 {
 					idx := inputIndexParam(fn, prm)
-					all, n := true, 0
+					numc := numbered{}
 					for _, ci := range p.Callers(fn) {
 						args := callArgs(ci.Common())
+						cc := numc.name("exit code passed to " + fn.Name())
 						if idx < len(args) {
-							if kk, okc := constInt(args[idx]); okc && kk != 0 {
-								n++
-								k = kk
+							if kk, okc := constInt(stripConv(args[idx])); okc && kk != 0 {
+								l.ok(p.FuncID(ci.Parent()), cc, p.InstrPos(ci), fmt.Sprintf("non-zero constant (%d) handed to the helper that calls cli.Exit", kk), false, "code")
 								continue
 							}
 						}
-						all = false
+						l.bad(p.FuncID(ci.Parent()), cc, p.InstrPos(ci), "the exit code handed to the cli.Exit helper is zero or not a constant: a failure would be reported as success", "code")
 					}
-					isC = all && n > 0
+					return
 				}
 			}
 			if isC && k != 0 {
@@ -1648,4 +1733,89 @@ func customMarshalMethods(p *Prog, typeName string) []string {
 		}
 	}
 	return dedupSorted(out)
+}
+
+// existsSuffixOverExtensions: slices.ContainsFunc(recv.extensions, func(e string) bool { return strings.HasSuffix(node.name, e) }).
+func existsSuffixOverExtensions(c *ssa.Call, node ssa.Value) bool {
+	callee := c.Common().StaticCallee()
+	if callee == nil || callee.Pkg == nil && callee.Origin() == nil {
+		return false
+	}
+	name := callee.Name()
+	if o := callee.Origin(); o != nil {
+		name = o.Name()
+		callee = o
+	}
+	if name != "ContainsFunc" || callee.Pkg == nil || callee.Pkg.Pkg.Path() != "slices" || len(c.Common().Args) != 2 {
+		return false
+	}
+	if _, f, ok := fieldOfLoad(c.Common().Args[0]); !ok || f != "extensions" {
+		return false
+	}
+	var pred *ssa.Function
+	var bindings []ssa.Value
+	switch f := resolve(c.Common().Args[1]).(type) {
+	case *ssa.MakeClosure:
+		pred = f.Fn.(*ssa.Function)
+		bindings = f.Bindings
+	case *ssa.Function:
+		pred = f
+	}
+	if pred == nil || len(pred.Params) != 1 || pred.Blocks == nil {
+		return false
+	}
+	ok, n := true, 0
+	allInstrs(pred, func(in ssa.Instruction) {
+		r, isR := in.(*ssa.Return)
+		if !isR {
+			return
+		}
+		n++
+		hc, isCall := rr(r)[0].(*ssa.Call)
+		if !isCall || calleeFullName(hc.Common()) != "strings.HasSuffix" || stripConv(hc.Common().Args[1]) != ssa.Value(pred.Params[0]) {
+			ok = false
+			return
+		}
+		ld, isL := isLoad(stripConv(hc.Common().Args[0]))
+		if !isL {
+			ok = false
+			return
+		}
+		fa, isFA := ld.(*ssa.FieldAddr)
+		if !isFA || fieldName(fa.X.Type(), fa.Field) != "name" {
+			ok = false
+			return
+		}
+		// the node: a captured variable bound to the predicate's node
+		base := resolve(fa.X)
+		if fv, isFV := stripConv(base).(*ssa.FreeVar); isFV {
+			for i, q := range pred.FreeVars {
+				if q == fv && i < len(bindings) {
+					base = resolve(bindings[i])
+					if ld2, isL2 := isLoad(stripConv(base)); isL2 {
+						_ = ld2
+						base = resolve(base)
+					}
+				}
+			}
+		}
+		if !sameVar(base, node) && !sameVar(fa.X, node) {
+			ok = false
+		}
+	})
+	return ok && n == 1
+}
+
+// mapperGetsParseResult: the mapper call receives Parse's error and the row that was parsed (arguments found by type).
+func mapperGetsParseResult(parse, he *ssa.Call) bool {
+	rowOK, errOK := false, false
+	for _, a := range he.Common().Args {
+		if isErrorType(a.Type()) && resolve(a) == ssa.Value(siblingExtract(parse, 1)) {
+			errOK = true
+		}
+		if b, ok := a.Type().Underlying().(*types.Basic); ok && b.Kind() == types.String && sameVar(parse.Common().Args[1], a) {
+			rowOK = true
+		}
+	}
+	return rowOK && errOK
 }
